@@ -18,7 +18,7 @@ S-expression encoding (names raw, keys / scalar texts hex with prefix `x`):
   EXP   = (lit JV) | (arr EXP*) | (map (kv XKEY EXP)*) | (st (kv XKEY EXP)*) | (self PARAM NAME*) | (ref CALL NAME*)
   JV    = n | (a XTEXT) | (l JV*) | (o (kv XKEY JV)*)
   obs   = (obs (outs (inst KEY JV)*) (jobs JOB*) (joins JOIN*) (top JV) (skip NAME*))
-  KEY   = (path NAME*) (forks (f CALLID (i N) | (k XKEY))*)
+  KEY   = (path NAME*) (forks (f CALLID (i N) | (k XKEY) | (u))*)      -- (u) = undetermined part
   JOB   = (job XJOBKEY stage KEY JVargs) | (job XJOBKEY chunk KEY JVargs JVchunkdef)
   JOIN  = (join XJOBKEY JVobsChunkDefs (l JVdef*) JVobsChunkOuts (l JVouts*))
 -/
@@ -148,6 +148,7 @@ def pKey : SX → SX → Option InstKey
       match f with
       | .l [.a "f", .a c, .l [.a "i", .a n]] => do pure (c, Idx.i (← n.toNat?))
       | .l [.a "f", .a c, .l [.a "k", .a k]] => do pure (c, Idx.k (← unhexStr k))
+      | .l [.a "f", .a c, .l [.a "u"]] => some (c, Idx.none)
       | _ => none
     pure ⟨(← names ps), forks⟩
   | _, _ => none
@@ -213,18 +214,28 @@ def renderKey (k : InstKey) : String :=
   ".".intercalate k.path ++ "[" ++ ",".intercalate (k.forks.map fun f =>
     f.1 ++ "=" ++ (match f.2 with | .i n => toString n | .k s => quote s | .none => "-")) ++ "]"
 
+/-- observed fork part `a` against den's `b`.  Indices: equal, or `b` is the "no
+element" placeholder of a mapped call over an empty collection (the run-time
+then names the part arbitrarily: undetermined, or index 0).  Call ids: equal —
+or the observed id is not one of the instance's enclosing mapped calls at all:
+when a map call splits the merged output of an earlier sibling map call
+(`map call B(x = split A.out)`), the run-time identifies B's fork dimension with
+A's and names the part after A. -/
+def partMatch (ids : List String) (a b : String × Idx) : Bool :=
+  (a.1 == b.1 || !ids.contains a.1) && (a.2 == b.2 || b.2 == Idx.none)
+
 /-- The run-time does not fork a stage over an enclosing mapped call when none of
 its inputs depends on the split value: one observed fork then stands for every
 index.  An observed fork (its parts = a sub-list of the enclosing mapped calls)
 *covers* a den instance when the paths agree and its parts are a sub-list of the
 instance's fork list. -/
-def subList : List (String × Idx) → List (String × Idx) → Bool
+def subList (ids : List String) : List (String × Idx) → List (String × Idx) → Bool
   | [], _ => true
   | _ :: _, [] => false
-  | a :: as, b :: bs => if a == b then subList as bs else subList (a :: as) bs
+  | a :: as, b :: bs => if partMatch ids a b then subList ids as bs else subList ids (a :: as) bs
 
 def covers (obs inst : InstKey) : Bool :=
-  obs.path == inst.path && subList obs.forks inst.forks
+  obs.path == inst.path && subList (inst.forks.map (·.1)) obs.forks inst.forks
 
 def oracleOf (outs : List (InstKey × J)) : Oracle := fun k =>
   (outs.find? fun o => covers o.1 k).map (·.2)
@@ -268,7 +279,8 @@ def checkAll (P : Program) (obs : Obs) : List String × Nat :=
     | j :: js =>
       -- all the jobs covering one instance must belong to one observed fork
       if js.all (fun j' => j'.inst == j.inst) then none
-      else some (mkDiff "ambiguous-instance" (renderKey i.key) "" i.args .null)
+      else some (mkDiff (if i.optional then "forks-under-empty-map" else "ambiguous-instance")
+        (renderKey i.key) "" i.args .null)
   let joinDiffs := obs.joins.flatMap fun j =>
     (if (joinChunkDefs (j.defs.map fieldsOf)).matches j.obsDefs then []
      else [mkDiff "chunk-defs" j.key "_chunk_defs" (joinChunkDefs (j.defs.map fieldsOf)) j.obsDefs]) ++
@@ -309,6 +321,24 @@ def handle (op : String) (args : List String) : Option String :=
       | _ => none
     let val ← pJ (← parseSX v)
     pure (render (projPath ss ty.ty pth val) ++ "\t" ++ render (resolvePath ss ty.ty pth val))
+  | "projnarrow", [st, t, path, dest, v] => do
+    -- LazyArgumentMap.Path(path, source = t, dest): project, then filter to dest
+    let ss ← match (← parseSX st) with
+      | .l (.a "structs" :: ss) => ss.mapM fun s =>
+          match s with
+          | .l (.a "s" :: .a n :: ps) => do pure (n, (← ps.mapM pParam))
+          | _ => none
+      | _ => none
+    let ty ← pParam (← parseSX t)
+    let dty ← pParam (← parseSX dest)
+    let pth ← match (← parseSX path) with
+      | .l (.a "path" :: ps) => names ps
+      | _ => none
+    let val ← pJ (← parseSX v)
+    let rt := pathTy ss ty.ty pth
+    pure (s!"{rt.base} {rt.mapDim} {rt.arrDim}\t" ++
+      render (narrow ss (ss.length + 2) dty.ty (projPath ss ty.ty pth val)) ++ "\t" ++
+      render (narrow ss (ss.length + 2) dty.ty (resolvePath ss ty.ty pth val)))
   | "narrow", [st, t, v] => do
     let ss ← match (← parseSX st) with
       | .l (.a "structs" :: ss) => ss.mapM fun s =>
